@@ -1,0 +1,1 @@
+//! Facade for `kbucket.rs` and `kbucket/*`.
